@@ -32,7 +32,7 @@ InitArena(c, d) ==
   IF d.ok
   THEN [ok |-> TRUE, flavor |-> d.flavor, backend |-> d.backend, doff |-> d.data_offset,
         live |-> NoLive, leaked |-> {}, obs |-> d.obs, mem |-> d.mem,
-        truncated |-> FALSE, rewound |-> FALSE, first |-> TRUE, dead |-> FALSE, na |-> FALSE,
+        truncated |-> FALSE, rewound |-> FALSE, first |-> TRUE, dead |-> FALSE, na |-> FALSE, nclones |-> 0,
         \* file sessions: rw = shared writable mapping (writes reach the file), cow = private copy, ro = read-only;
         \* persist = what the file holds (state at the last step of the last rw session)
         mode |-> "rw", kind0 |-> d.kind, persist |-> [obs |-> d.obs, mem |-> d.mem, held |-> {}]]
@@ -93,7 +93,7 @@ NextArena0(op, x, s) ==
   IF op.k = "reopen" THEN
      \* the closing session's handles are given up; what counts afterwards is what the FILE held
      [s1 EXCEPT !.live = NoLive, !.leaked = s.persist.held \cup (IF s.mode = "rw" THEN HeldOf(s) ELSE {}),
-                !.mode = ModeOf(op.variant), !.first = FALSE, !.truncated = FALSE]
+                !.mode = ModeOf(op.variant), !.first = FALSE, !.truncated = FALSE, !.nclones = 0]
   ELSE
   IF IsAlloc(op) THEN
      IF x.res.k = "ok"
@@ -115,6 +115,8 @@ NextArena0(op, x, s) ==
                 !.rewound = TRUE]
   ELSE IF op.k = "clear" THEN
      [s1 EXCEPT !.live = NoLive, !.leaked = {}, !.rewound = FALSE, !.first = TRUE]
+  ELSE IF op.k = "mkclone" THEN (IF x.res.k = "ok" THEN [s1 EXCEPT !.nclones = s.nclones + 1] ELSE s1)
+  ELSE IF op.k = "dropclone" THEN (IF x.res.k = "ok" THEN [s1 EXCEPT !.nclones = s.nclones - 1] ELSE s1)
   ELSE IF op.k = "truncate" THEN
      [s1 EXCEPT !.na = (s.na \/ x.res.k = "na"), !.live = NoLive, !.leaked = s.leaked \cup {AsLeak(s.live[h]) : h \in DOMAIN s.live},
                 !.truncated = (s.truncated \/ x.res.k = "ok")]
